@@ -297,6 +297,7 @@ class SVGImage:
         return width, height, ratio
 
     def draw(self, stream, concrete_width, concrete_height, image_rendering):
+        checkpoint = stream.checkpoint()
         try:
             self._svg.draw(
                 stream, concrete_width, concrete_height, self._base_url,
@@ -304,6 +305,8 @@ class SVGImage:
         except BaseException as exception:
             LOGGER.error('Failed to render SVG image %s', self._base_url)
             LOGGER.debug('Error while rendering SVG image:', exc_info=exception)
+            # Remove partial drawing, whose states, texts and paths are not closed
+            stream.rollback(checkpoint)
 
 
 def get_image_from_uri(cache, url_fetcher, options, url, forced_mime_type=None,
